@@ -98,8 +98,10 @@ package core
 //@     modifies c.ServerMap.view
 //@     invariant 0 <= rangeindex + 1 && rangeindex + 1 <= len(allNodes)
 
+// C20 relies on the two-pass structure: all replica sets exist (first loop) before any slave is placed (second loop),
+// so a slave listed ahead of its master still reaches its master's set; the invariants below pin that structure.
 //@ func ClusterNodes.setReplicaset
-//@   props C14
+//@   props C14 C20
 //@   modifies c.Replicasets, capmem(c.Replicasets), replicaset.Slaves
 //@   requires forall i int :: 0 <= i && i < len(allNodes) ==> allNodes[i] != nil
 //@   ensures[masters] forall i int :: 0 <= i && i < len(c.Replicasets) ==> c.Replicasets[i] != nil && c.Replicasets[i].Master != nil
